@@ -1,6 +1,7 @@
 package main
 
 import (
+	"go/token"
 	"strings"
 
 	"golang.org/x/tools/go/ssa"
@@ -26,6 +27,9 @@ func checkC20(c *Ctx) {
 	l := c.V2
 	c.rule("DOM-replay-hash-check", "a reloaded version is accepted only if its recomputed root hash equals the stored one", 3)
 	c.rule("ERR-sqlite", "errors of SQLite-reaching calls are not dropped or swallowed", 100)
+	c.rule("ORDER-replay-reset", "the replay leaves no replayed node in the tree's pending-write lists when it returns", 1)
+	c.rule("FLOW-prune-to-checkpoint", "the leaf change log is pruned only up to a checkpoint version (FindPrevious)", 2)
+	c.rule("FLOW-checkpoint-flag", "the stored checkpoint flag and the in-memory checkpoint list derive from the same decision", 4)
 	c.rule("SQL-schema", "every SQL statement names existing tables / columns; INSERT, UNION and duplicate CREATE lists agree", 40)
 	c.rule("SQL-arity", "placeholders = bound values and result columns = Scan destinations, for every statement a prepared-statement variable can hold", 30)
 	c.rule("SQL-roles", "NodeKey version / sequence are bound to and scanned from *version / *sequence columns", 15)
@@ -94,9 +98,207 @@ func checkC20(c *Ctx) {
 		}
 	}
 	checkSQLRules(c, l, "SQL-schema", "SQL-arity", "SQL-roles")
+	checkV2CheckpointRules(c, l)
 	ea := newErrAnalysisWith(c, l, sqliteOps())
 	ea.runE1E2E4("ERR-sqlite", "ERR-sqlite", "ERR-sqlite", func(fn *ssa.Function) bool {
 		p := l.pkgPathOf(fn)
 		return p == l.ModPath
 	})
+}
+
+// allUnder lists fn and every function nested in it.
+func allUnder(fn *ssa.Function) []*ssa.Function {
+	out := []*ssa.Function{fn}
+	for _, a := range fn.AnonFuncs {
+		out = append(out, allUnder(a)...)
+	}
+	return out
+}
+
+// checkV2CheckpointRules: structural necessary conditions of "any retained
+// version reloads, also after pruning".
+func checkV2CheckpointRules(c *Ctx, l *Loaded) {
+	// ---- (1) replay: pending-write lists are clean at every success return.
+	// computeHash (deepHash) appends the nodes it hashes to tree.leaves / tree.branches; Set/Remove
+	// append too.  A replayed node left in those lists is written again by the next SaveVersion with
+	// INSERT OR REPLACE, over the correct change-log row, without its value.
+	replay := l.Func("", "*SqliteDb.replayChangelog")
+	fLeaves := l.Field("", "Tree", "leaves")
+	fBranches := l.Field("", "Tree", "branches")
+	if replay == nil || fLeaves == nil || fBranches == nil {
+		c.anchorMissing("ORDER-replay-reset", "replayChangelog / Tree.leaves / Tree.branches")
+	} else {
+		writers := l.newFnReach(func(fn *ssa.Function) bool {
+			if fn == replay || !l.inModule(fn) {
+				return false
+			}
+			w := false
+			allInstrs(fn, func(in ssa.Instruction) {
+				if st, ok := in.(*ssa.Store); ok && isStoreToField(st, fLeaves, fBranches) && !isNilConst(st.Val) {
+					w = true
+				}
+			})
+			return w
+		})
+		gen := func(in ssa.Instruction) bool {
+			st, ok := in.(*ssa.Store)
+			return ok && isStoreToField(st, fLeaves) && isNilConst(st.Val)
+		}
+		kill := func(in ssa.Instruction) bool { return callCommon(in) != nil && writers.Instr(in) }
+		clean := mustState(replay, false, gen, kill)
+		var bad *ssa.Return
+		n := 0
+		for _, r := range successReturns(replay) {
+			if isRecoverReturn(r) {
+				continue
+			}
+			n++
+			if !clean(r) {
+				bad = r
+			}
+		}
+		pos := l.pos(replay.Pos())
+		if bad != nil {
+			pos = l.ipos(bad)
+		}
+		c.decide("ORDER-replay-reset", "replayChangelog resets the pending-write lists after the last call that fills them", pos, bad == nil && n > 0,
+			"every success return is reached with tree.leaves reset after the last Set / Remove / computeHash", "a success return is reached after a call that appends replayed nodes to tree.leaves / tree.branches without a later reset: the next SaveVersion re-writes them (INSERT OR REPLACE) over the correct change-log rows")
+	}
+
+	// ---- (2) leaf prune target is a checkpoint
+	leafLoop := l.Func("", "*sqlWriter.leafLoop")
+	findPrev := l.Func("", "*VersionRange.FindPrevious")
+	if leafLoop == nil || findPrev == nil {
+		c.anchorMissing("FLOW-prune-to-checkpoint", "sqlWriter.leafLoop / VersionRange.FindPrevious")
+	} else {
+		under := allUnder(leafLoop)
+		// the closure that opens the leaf-orphan prune query with its parameter bound
+		var begin *ssa.Function
+		for _, f := range under {
+			allInstrs(f, func(in ssa.Instruction) {
+				cc := callCommon(in)
+				if cc == nil || !sqlMethod(cc, "Conn", "Prepare") {
+					return
+				}
+				ts, ok := textsOf(cc.Args[1], 0)
+				if !ok {
+					return
+				}
+				for _, t := range ts {
+					lt := strings.ToLower(t)
+					if strings.Contains(lt, "select") && strings.Contains(lt, "leaf_orphan") {
+						begin = f
+					}
+				}
+			})
+		}
+		if begin == nil || len(begin.Params) == 0 {
+			c.anchorMissing("FLOW-prune-to-checkpoint", "closure preparing the leaf_orphan prune query")
+		} else {
+			cells := map[ssa.Value]bool{}
+			nCalls := 0
+			for _, f := range under {
+				allInstrs(f, func(in ssa.Instruction) {
+					cc := callCommon(in)
+					if cc == nil {
+						return
+					}
+					hit := false
+					for _, g := range l.calleesOf(in) {
+						if g == begin {
+							hit = true
+						}
+					}
+					if !hit || len(cc.Args) == 0 {
+						return
+					}
+					nCalls++
+					a := stripTrivial(cc.Args[len(cc.Args)-1])
+					if ld, ok := a.(*ssa.UnOp); ok && ld.Op == token.MUL {
+						cells[cellOf(ld.X)] = true
+						return
+					}
+					// a direct value: must itself be a FindPrevious result
+					r := roleOf(l, a, "", 0)
+					c.decide("FLOW-prune-to-checkpoint", l.fname(f)+" opens the leaf prune batch", l.ipos(in), strings.HasPrefix(r, "FindPrevious("), "target = FindPrevious(requested)", "the leaf prune batch is opened for `"+r+"`, not for a checkpoint version")
+				})
+			}
+			if nCalls == 0 {
+				c.anchorMissing("FLOW-prune-to-checkpoint", "no call of the prune-batch closure found")
+			}
+			for _, f := range under {
+				allInstrs(f, func(in ssa.Instruction) {
+					st, ok := in.(*ssa.Store)
+					if !ok || !cells[cellOf(st.Addr)] {
+						return
+					}
+					r := roleOf(l, st.Val, "", 0)
+					ok2 := r == "0" || strings.HasPrefix(r, "FindPrevious(")
+					c.decide("FLOW-prune-to-checkpoint", l.fname(f)+" sets the leaf prune target", l.ipos(st), ok2, "0 (idle) or FindPrevious(requested): leaves are pruned to checkpoint boundaries only",
+						"the leaf prune target is set to `"+r+"`: pruning the change log to a non-checkpoint version removes rows that the replay from the previous checkpoint still needs")
+				})
+			}
+		}
+	}
+
+	// ---- (3) checkpoint flag
+	const R = "FLOW-checkpoint-flag"
+	saveRoot := l.Func("", "*SqliteDb.SaveRoot")
+	saveTree := l.Func("", "*sqlWriter.saveTree")
+	sigT := l.NamedType("", "saveSignal")
+	sv := l.Func("", "*Tree.SaveVersion")
+	add := l.Func("", "*VersionRange.Add")
+	fShould := l.Field("", "Tree", "shouldCheckpoint")
+	if saveRoot == nil || saveTree == nil || sigT == nil || sv == nil || add == nil || fShould == nil {
+		c.anchorMissing(R, "SaveRoot / sqlWriter.saveTree / saveSignal / Tree.SaveVersion / VersionRange.Add / Tree.shouldCheckpoint")
+		return
+	}
+	for _, m := range structLiteralStores(saveTree, sigT) {
+		r := roleOf(l, m["wantCheckpoint"], "", 0)
+		c.decide(R, "saveSignal.wantCheckpoint <- tree.shouldCheckpoint", l.pos(saveTree.Pos()), r == "arg0.shouldCheckpoint", "the writer is told the tree's decision", "saveSignal.wantCheckpoint is `"+r+"`")
+	}
+	nSR := 0
+	for _, f := range l.SrcFuncs {
+		if !l.inModule(f) {
+			continue
+		}
+		for _, in := range callsIn(f, predStatic(saveRoot)) {
+			nSR++
+			r := roleOf(l, callCommon(in).Args[3], "", 0)
+			ok := r == "true" || strings.HasSuffix(r, ".wantCheckpoint")
+			c.decide(R, l.fname(f)+" SaveRoot checkpoint flag", l.ipos(in), ok, "`true` (snapshot import) or the save signal's wantCheckpoint",
+				"the root row's checkpoint flag is `"+r+"`: it can differ from the tree's decision that also feeds the in-memory checkpoint list, and after a reopen versions up to the next checkpoint find no checkpoint to load from")
+		}
+	}
+	if nSR < 2 {
+		c.anchorMissing(R, "fewer than 2 SaveRoot call sites")
+	}
+	// in-memory list: Add is on the shouldCheckpoint edge, and that edge cannot reach success without it
+	gs := findGuards(sv, func(cond ssa.Value) (bool, int) {
+		if isLoadOfField(fShould)(stripTrivial(cond)) {
+			return true, 0
+		}
+		return false, 0
+	})
+	adds := callsIn(sv, predStatic(add))
+	if len(adds) == 0 {
+		c.bad(R, "Tree.SaveVersion records the checkpoint in memory", l.pos(sv.Pos()), "SaveVersion no longer adds the version to the checkpoint list")
+	}
+	for _, in := range adds {
+		c.decide(R, "Tree.SaveVersion adds to the checkpoint list only on the shouldCheckpoint edge", l.ipos(in), guardsEffect(gs, in), "dominated by `tree.shouldCheckpoint`", "the in-memory checkpoint list is extended without the checkpoint decision")
+	}
+	passed := mustStateE(sv, false, func(in ssa.Instruction) bool { cc := callCommon(in); return cc != nil && predStatic(add)(cc) }, nil,
+		func(from *ssa.BasicBlock, si int) bool {
+			for _, g := range gs {
+				if g.iff.Block() == from && si == 1-g.pass {
+					return true
+				}
+			}
+			return false
+		})
+	okP := len(gs) > 0
+	for _, r := range successReturns(sv) {
+		okP = okP && passed(r)
+	}
+	c.decide(R, "Tree.SaveVersion: a checkpointing commit always records the checkpoint in memory", l.pos(sv.Pos()), okP, "every success return passes checkpoints.Add or the `no checkpoint` edge", "a checkpointing commit can succeed without recording the checkpoint in the in-memory list")
 }
